@@ -269,6 +269,10 @@ func (e *Engine) contractWrites(c *Contract, ws *writeSet, sig *types.Signature,
 				case "obj", "elems", "map":
 					e.objectWrites(t, ws)
 					continue
+				case "dyn":
+					ws.all = true
+					ws.why = append(ws.why, "dyn() item of "+c.Key)
+					continue
 				case "big":
 					ws.keys["BigVal"] = true
 					continue
